@@ -15,10 +15,10 @@ EXPLANATION = (
     " has no other writer besides remove_replica and migration 002; (R4) the actor's import handler evaluated on outcome x "
     "{open, closed}: the imported capability is merged into the open replica's state exactly on Upgraded; (R5) "
     'Capability::secret_key is Ok iff Write and local insert/delete obtain the signing key from it before any store call; '
-    "(R6) the RPC handler behind Docs::import evaluated on {import, open, other handle calls} x {ok, fails}: success is reported only "
-    "after SyncHandle::import_namespace succeeded with the request's capability. "
-
-    'NOT decided: redb persistence itself.'
+    '(R6) the RPC handler behind Docs::import evaluated on {import, open, other handle calls} x {ok, fails}: success is '
+    "reported only after SyncHandle::import_namespace succeeded with the request's capability. (R7) the file-format "
+    'migration that runs on open for stores written by iroh-docs 0.94..=0.98 (migrate_redb_v2_tuples::run), evaluated on an'
+    ' old file holding one row per table, carries the capability tables. NOT decided: redb persistence itself.'
 )
 ASSUMPTIONS = ["std::mem::replace(self, other) stores other into self", "redb tables are identified by their key/value types"]
 
@@ -416,6 +416,13 @@ def r6(ctx):
     ctx.floor("C07.R6", 8)
 
 
+def r7(ctx):
+    """"no reopen of the store downgrades it": the file-format migration that runs on open carries the capability tables"""
+    from . import redbmig
+    redbmig.check(ctx, "C07.R7", only={"namespaces-1", "namespaces-2"})
+    ctx.floor("C07.R7", 1)
+
+
 def run(ctx):
     ctx.run_rule("C07.R1", r1)
     ctx.run_rule("C07.R2", r2)
@@ -423,3 +430,4 @@ def run(ctx):
     ctx.run_rule("C07.R4", r4)
     ctx.run_rule("C07.R5", r5)
     ctx.run_rule("C07.R6", r6)
+    ctx.run_rule("C07.R7", r7)
